@@ -22,6 +22,7 @@ var registry = map[string]entry{
 	"C03": {"model_checking", checks.C03},
 	"C05": {"model_checking", checks.C05},
 	"C18": {"model_checking", checks.C18},
+	"C17": {"model_checking", checks.C17},
 	"C08": {"model_checking", checks.C08},
 	"C11": {"model_checking", checks.C11},
 	"C09": {"model_checking", checks.C09},
